@@ -67,6 +67,9 @@ def gen(tier, rng, harness=None):
     # map order, so a node that looks at the CONTENT of a referenced node while it may still be a skeleton gives a result that depends on that order
     for _, t, _ in catalog.DI + catalog.DI_REFS:
         lines.append("!mod.det - %s" % hx(t))
+    # the corner cases collected from the seed rounds (names that concatenate alike, long runs of unnamed entities, numbered types among names ...)
+    for _, t, _ in catalog.round13_entries()[-6:] + catalog.round14_entries() + catalog.order_entries():
+        lines.append("!mod.det - %s" % hx(t))
     # earlier parse/print activity must not matter: every module against polluters drawn from the catalogue (incl. named non-struct types),
     # the corpus and other generated modules
     cat = [t for _, t, _ in catalog.STRUCTURED + catalog.NAMED_NONSTRUCT + catalog.inst_entries() + catalog.DI]
